@@ -80,6 +80,9 @@ func genC08(rc *RunCtx) (*C1, bool) {
 	sc.Full = full
 	sc.DeadlinePort = sc.Kind == KSerial && !sc.Flusher && t.Choose(2) == 1
 	sc.WrappedTimeouts = !t.Has("prefix") && t.Choose(3) == 0
+	if sc.Kind == KSerial && !t.Has("prefix") && t.Chance(1, 12) {
+		sc.ReadTimeout = []time.Duration{0, 50 * time.Nanosecond, time.Microsecond}[t.Choose(3)] // a read timeout shorter than any polling interval (the option takes what it is given)
+	}
 	switch sc.Fault {
 	case FIOErr, FWriteErr, FShortWrite, FWriteDeadlineErr:
 		sc.IOErr = genIOErr(t)
